@@ -207,13 +207,8 @@ func (t *Indexer) GetBlockHeaderByHeight(height uint64) (*lib.BlockResult, lib.E
 		return nil, err
 	}
 	// get block from hash key
-	block, err := t.getBlock(hashKey, false)
-	if err != nil {
-		return nil, err
-	}
-	// populate cache on read so historical blocks are warm after a restart
-	blockCache.Add(height, block)
-	return block, nil
+	// NOTE: a header-only result must not enter the block cache: GetBlockByHeight() serves full blocks from that cache
+	return t.getBlock(hashKey, false)
 }
 
 // GetBlocks() returns a page of blocks based on the page parameters
